@@ -8,6 +8,8 @@ from vf import enum_graphs as eg
 from vf import env, findings, ir as irm, lite, modes as md, universe
 
 PROP = 'C09'
+QDIM = {'FULLY_CONNECTED': 0, 'CONV_2D': 0, 'DEPTHWISE_CONV_2D': 3,
+        'CONV_2D_TRANSPOSE': 0, 'EMBEDDING_LOOKUP': 0}
 KINDS = ['mix', 'pos', 'alt']
 N2_TYPES = eg.TTOPO + ['CONV_2D', 'EMBEDDING_LOOKUP', 'MUL']
 
@@ -263,6 +265,17 @@ def run_case(case, note, skip):
   const_names = {built.tname(0, t): built.const(0, t)
                  for (s, t) in built.g.const if s == 0}
 
+  const_axis = {}
+  for meta in built.ops[0]:
+    if meta.weight is None:
+      continue
+    w = built.const(0, meta.weight)
+    if meta.type in QDIM:
+      const_axis[built.tname(0, meta.weight)] = QDIM[meta.type]
+    elif meta.type == 'BATCH_MATMUL':
+      const_axis[built.tname(0, meta.weight)] = (
+          w.ndim - 2 if meta.variant == 'const_adjy' else w.ndim - 1)
+
   def fail(kind, detail, sub, facts=None):
     res['fails'].append(findings.fail(PROP, kind, detail, sub, facts or {},
                                       group=kind))
@@ -302,8 +315,13 @@ def run_case(case, note, skip):
             ok = float(mn.ravel()[0]) == float(c.min()) and \
                 float(mx.ravel()[0]) == float(c.max())
           else:
-            for d in range(c.ndim):
+            # weights: the axis the operator's kernel expects (C04's table);
+            # other constants: any axis of matching size
+            for d in ([const_axis[name]] if name in const_axis
+                      else range(c.ndim)):
               if c.shape[d] != mn.size:
+                continue
+              if mn.ndim == c.ndim and mn.shape[d] != mn.size:
                 continue
               ax = tuple(i for i in range(c.ndim) if i != d)
               if np.array_equal(mn.ravel(), c.min(axis=ax).ravel()) and \
